@@ -1075,6 +1075,9 @@ class LineEval:
         rd.res = res
         self.path.reads.append(rd)
         atomkey = f'{kind}:{res.qualified}'
+        if res.form is not None and res.instance is not None and not res.form.class_attrs.get('valid_instances') and res.name is not None:
+            # copies of a multi-instance input form are interchangeable: one canonical atom
+            atomkey = f'{kind}:{res.form_name}:*.{res.name}'
         rd.atom = atomkey
         if membership:
             return None
